@@ -157,12 +157,12 @@ def index():
         det = []
         for p, r in sorted(m.get("detection", {}).items()):
             det.append(f"{p}: {'caught' if r.get('detected') else 'MISSED'}" + (f" ({r['oracles'][0].split(' key=')[0].replace('oracle=', '')})" if r.get("oracles") else ""))
-        rows.append(f"| {m['id']} | {', '.join(m['breaks'])} | {m.get('name', '')} | {m.get('needs_to_manifest', '')} | {'yes' if m.get('confirmed') else 'NO'} | {'; '.join(det)} |")
+        rows.append(f"| {m['id']} | {', '.join(m['breaks'])} | {m.get('name', '')} | {m.get('needs_to_manifest', '')} | {'yes' if m.get('confirmed') else 'NO'} | {'; '.join(det)} | {m.get('strengthening', '')} |")
     with open(os.path.join(SEEDED, "INDEX.md"), "w") as f:
         f.write("# Seeded changes\n\nEach directory holds `patch.diff` (against /repo HEAD), the sub-agent's demonstration, its notes and "
                 "`meta.json`. None of these patches is ever committed to /repo. `python -m jv.seeded detect <id>` re-runs the checks "
                 "against a scratch copy with the patch applied.\n\n"
-                "| id | breaks | change | needs to manifest | sub-agent demo confirmed | our checks |\n|---|---|---|---|---|---|\n")
+                "| id | breaks | change | needs to manifest | sub-agent demo confirmed | our checks | what was strengthened |\n|---|---|---|---|---|---|---|\n")
         f.write("\n".join(rows) + "\n")
     print(f"{len(rows)} seeded changes indexed")
 
